@@ -633,6 +633,7 @@ func runC17(c *Ctx) {
 	runC17Metadata(c)
 	runC17Fits(c, funcs)
 	runC17FreshBatch(c, funcs)
+	runC17Round5(c)
 }
 
 func entryInstrOf(b *ssa.BasicBlock) ssa.Instruction { return b.Instrs[0] }
